@@ -189,7 +189,12 @@ fn main() {
         let api = if legacy_ok && rng.chance(1, 2) { Api::Legacy } else { Api::Command };
         let full = Job::Kv(api, job.clone());
         let sname = shells[shell_idx].name();
-        wd.begin(|| json!({"lane": "kvlab", "shell": sname, "job": format!("{full:?}").chars().take(2000).collect::<String>()}).to_string());
+        // the capability API has a callback flavour and an async flavour (awaited in a task
+        // spawned through Compose; in one case in three probed once without blocking first)
+        let flavour: u8 = if api == Api::Legacy { Rng::derive(seed, case_no, 1717).below(3) as u8 } else { 0 };
+        caplab::app::KV_LEGACY_FLAVOUR.store(flavour, std::sync::atomic::Ordering::SeqCst);
+        let flavour_name = ["callback", "async", "async-probed-first"][flavour as usize];
+        wd.begin(|| json!({"lane": "kvlab", "shell": sname, "capability_api_flavour": flavour_name, "job": format!("{full:?}").chars().take(2000).collect::<String>()}).to_string());
         let res = vcommon::trap(|| {
             let shell = &mut shells[shell_idx];
             let before = shell.log()?.len();
@@ -234,6 +239,9 @@ fn main() {
         r.eval();
         r.set("shells", sname);
         r.set("apis", format!("{api:?}"));
+        if api == Api::Legacy {
+            r.set("capability_api_flavours", flavour_name);
+        }
         r.set(
             "operations",
             match &job {
@@ -274,7 +282,7 @@ fn main() {
                     r.violation(
                         &format!("{sig}@{sname}"),
                         &sig.replace(['/', '-'], " "),
-                        json!({"lane": "kvlab", "shell": sname, "api": format!("{api:?}"), "job": format!("{job:?}").chars().take(1000).collect::<String>(), "detail": detail}),
+                        json!({"lane": "kvlab", "shell": sname, "api": format!("{api:?}"), "capability_api_flavour": flavour_name, "job": format!("{job:?}").chars().take(1000).collect::<String>(), "detail": detail}),
                     );
                 }
             }
